@@ -39,8 +39,10 @@ instance {α : Type} : HasLen (List α) := ⟨fun l => l.length⟩
 instance : HasLen String := ⟨fun s => s.utf8ByteSize⟩
 def len {α : Type} [HasLen α] (x : α) : Int := HasLen.len x
 def contains {α : Type} [BEq α] (l : List α) (x : α) : Bool := l.contains x
-def hasPrefix (s p : String) : Bool := p.isPrefixOf s
-def hasSuffix (s p : String) : Bool := (s.toList.drop (s.length - p.length)) == p.toList && p.length ≤ s.length
+/-- `strings.HasPrefix` (structural on the character lists, so that the kernel can evaluate it) -/
+def hasPrefix (s p : String) : Bool := p.toList.isPrefixOf s.toList
+/-- `strings.HasSuffix` -/
+def hasSuffix (s p : String) : Bool := p.toList.isSuffixOf s.toList
 
 def ok : R Unit := .ok ()
 
